@@ -138,10 +138,19 @@ class _RunnerIterator(iter_utils.MultiplexIterator[_ValueT]):
     ) -> Iterator[tree.TreeLike]:
       """Call a chain of functions in sequence."""
       result = input_iterator
+      iterators = []
       for fn in self._runner.fns:
         fn = dataclasses.replace(fn, ignore_error=self._ignore_error)
         result = fn.iterate(result)
-      yield from result
+        iterators.append(result)
+      try:
+        yield from result
+      finally:
+        # Closes the upstream generators (e.g., a sink) when one of the
+        # functions fails or the iteration is abandoned.
+        for iterator in iterators:
+          if hasattr(iterator, 'close'):
+            iterator.close()
 
     self.batch_index = 0
     super().__init__(
